@@ -253,6 +253,11 @@ func TestC03(t *testing.T) {
 		}
 		leaves = append(leaves, &gen.Node{K: gen.NList, Field: f, Vals: []*gen.Val{a, b, c3}})
 	}
+	leaves = append(leaves,
+		&gen.Node{K: gen.NRange, Field: s1, Lo: gen.Quoted("00501"), Hi: gen.Quoted("09999"), IncLo: true, IncHi: true},
+		&gen.Node{K: gen.NRange, Field: s1, Lo: gen.Quoted("10"), Hi: gen.Quoted("2.50"), IncLo: true, IncHi: true},
+		&gen.Node{K: gen.NField, Field: s1, V: gen.EscapedWord("São Paulo")}, &gen.Node{K: gen.NField, Field: s1, V: gen.Quoted("a||b && c")},
+		&gen.Node{K: gen.NField, Field: n1, V: gen.IntSrc("010")})
 	leaves = append(leaves, &gen.Node{K: gen.NField, Field: s1, V: gen.Wild("f?o*")}, &gen.Node{K: gen.NField, Field: s1, V: gen.Wild("a_b*")},
 		&gen.Node{K: gen.NField, Field: n1, V: gen.Float("0.001")}, &gen.Node{K: gen.NRange, Field: n1, Lo: gen.Float("0.001"), Hi: gen.Float("0.002"), IncLo: true, IncHi: true},
 		&gen.Node{K: gen.NRange, Field: n1, Lo: gen.Float("1.125"), Hi: nil, IncLo: false, IncHi: false})
